@@ -197,6 +197,7 @@ func newInstance(cfg InstCfg) (*Instance, error) {
 	}
 	for i := 0; i < n; i++ {
 		in.openConn()
+		in.Quiesce() // one at a time: connection ids are then deterministic (c<k> has id k+1)
 	}
 	in.Quiesce()
 	return in, nil
@@ -279,50 +280,54 @@ func (in *Instance) DoRaw(ci int, seg []byte) Reply {
 
 // Embedded runs a command through the embedded entry point.
 func (in *Instance) Embedded(args ...string) Reply {
-	if in.dead {
-		return Reply{Panic: "instance dead: " + in.deadWhy}
-	}
 	var r Reply
-	func() {
-		defer func() {
-			if p := recover(); p != nil {
-				r.Panic = fmt.Sprintf("%v\n%s", p, debug.Stack())
-				in.dead = true
-				in.deadWhy = "panic"
-			}
-		}()
-		b, err := in.db.VerifHandleEmbedded(args)
-		if err != nil {
-			r.Raw = []byte("-Error " + err.Error() + "\r\n")
-		} else {
-			r.Raw = b
-		}
-	}()
-	if !in.Quiesce() {
-		r.Hang = true
+	var b []byte
+	err, p, h := in.Call(func() error {
+		var e error
+		b, e = in.db.VerifHandleEmbedded(args)
+		return e
+	})
+	r.Panic, r.Hang = p, h
+	if err != nil {
+		r.Raw = []byte("-Error " + err.Error() + "\r\n")
+	} else {
+		r.Raw = b
 	}
 	return r
 }
 
-// Call runs f (a call into the instance, e.g. a synchronous snapshot) with panic capture, then quiesces.
+// Call runs f (a call into the instance, e.g. a synchronous snapshot) in a tracked goroutine with
+// panic capture and waits for quiescence under the hang watchdog.
 func (in *Instance) Call(f func() error) (err error, panicked string, hang bool) {
 	if in.dead {
 		return nil, "instance dead: " + in.deadWhy, false
 	}
-	func() {
+	var mu sync.Mutex
+	verifrt.TrackBegin()
+	go func() {
+		defer verifrt.TrackEnd()
 		defer func() {
 			if p := recover(); p != nil {
+				mu.Lock()
 				panicked = fmt.Sprintf("%v\n%s", p, debug.Stack())
-				in.dead = true
-				in.deadWhy = "panic"
+				mu.Unlock()
 			}
 		}()
-		err = f()
+		e := f()
+		mu.Lock()
+		err = e
+		mu.Unlock()
 	}()
 	if !in.Quiesce() {
-		hang = true
+		return nil, "", true
 	}
-	return
+	mu.Lock()
+	defer mu.Unlock()
+	if panicked != "" {
+		in.dead = true
+		in.deadWhy = "panic"
+	}
+	return err, panicked, false
 }
 
 func (in *Instance) connNames() map[*net.Conn]string {
